@@ -11,7 +11,8 @@
 (*                   |live| + |hs| <= Limit; the handles become live       *)
 (*   Seq(n, form)    a form whose body measures each pair: the sequential  *)
 (*                   form needs one free slot (pairs are generated one by  *)
-(*                   one), the context form n (generated concurrently);    *)
+(*                   one; so does a context asked to be sequential), the   *)
+(*                   context form n (generated concurrently);              *)
 (*                   `live` is unchanged afterwards                        *)
 (*   Flush           the pending operations run on the controller          *)
 (* Limit = budget, or budget - 1 on single-communication-qubit hardware    *)
